@@ -2,6 +2,7 @@ package rules
 
 import (
 	"fmt"
+	"go/token"
 	"strings"
 
 	"bxhlint/core"
@@ -52,6 +53,34 @@ func enclosingRange(in ssa.Instruction) (ssa.Value, bool, bool) {
 		if strings.HasPrefix(b.Comment, "rangeindex") {
 			for _, x := range b.Instrs {
 				if ia, ok := x.(*ssa.IndexAddr); ok {
+					return ia.X, false, true
+				}
+			}
+			return nil, false, true
+		}
+		if strings.HasPrefix(b.Comment, "for.") {
+			// a counting loop `for i := 0; i < len(xs); i++ { .. xs[i] .. }`: the element is addressed by an
+			// index that starts at 0 and is advanced by one per iteration
+			for _, x := range b.Instrs {
+				ia, ok := x.(*ssa.IndexAddr)
+				if !ok {
+					continue
+				}
+				ph, ok := ia.Index.(*ssa.Phi)
+				if !ok || len(ph.Edges) != 2 {
+					continue
+				}
+				asc := false
+				for i, e := range ph.Edges {
+					if bo, ok := e.(*ssa.BinOp); ok && bo.Op == token.ADD && bo.X == ssa.Value(ph) {
+						if one, ok := core.ConstInt(bo.Y); ok && one == 1 {
+							if z, ok := core.ConstInt(ph.Edges[1-i]); ok && z == 0 {
+								asc = true
+							}
+						}
+					}
+				}
+				if asc {
 					return ia.X, false, true
 				}
 			}
